@@ -50,10 +50,10 @@ def cfg_fields(case):
     return 0, None
 
 
-def lex_only(chunks):
+def lex_only(chunks, version=None):
     """picotool's lexer without the parser -> Lua object (tokens, get_token_count, get_title...)"""
     from pico8.lua import lua
-    l = lua.Lua(8)
+    l = lua.Lua(lib.lua_version(chunks) if version is None else version)
     l._lexer.process_lines(list(chunks))
     return l
 
@@ -62,10 +62,10 @@ def split_lines(src):
     return luagen.split_lines(src)
 
 
-def _stats(text):
+def _stats(text, version=None):
     """what `stats` derives from a Lua text: (token count, title, byline) with picotool's own lexer"""
     try:
-        l = lex_only(split_lines(text))
+        l = lex_only(split_lines(text), version)
         return l.get_token_count(), l.get_title(), l.get_byline()
     except Exception as e:  # noqa
         return 'ERR ' + lib.exc_name(e), None, None
@@ -80,6 +80,8 @@ def run_impl(case):
     from pico8.lua import lua
     kind = case['kind']
     src = lib.unhx(case['src'])
+    # the cart's data version: input and output are counted under the same one (luamin keeps the version)
+    ver = lib.lua_version(src)
     ka, kf = cfg_fields(case)
     files = []
     kpath = None
@@ -93,7 +95,7 @@ def run_impl(case):
     try:
         lines = split_lines(src)
         if kind == 'prog':
-            li = lua.Lua.from_lines(lines, version=8)
+            li = lua.Lua.from_lines(lines, version=ver)
             _PROG[0] += 1
             if _PROG[0] % 3 == 0:
                 # the Lua object is not fresh: it was echoed and minified under the OPPOSITE keep-all-names setting
@@ -104,7 +106,7 @@ def run_impl(case):
             chunks = [bytes(c) for c in li.to_lines(writer_cls=lua.LuaMinifyTokenWriter, writer_args=args)]
             obs['cin'] = li.get_token_count()
         elif kind == 'toks':
-            li = lex_only(lines)
+            li = lex_only(lines, ver)
             w = lua.LuaMinifyTokenWriter(tokens=li.tokens, root=None, args=args)
             chunks = [bytes(c) for c in w.to_lines()]
             obs['cin'] = li.get_token_count()
@@ -116,7 +118,7 @@ def run_impl(case):
                 cart = path('.p8')
                 outp = cart[:-3] + '_fmt.p8'
                 with open(cart, 'wb') as fh:
-                    fh.write(b'pico-8 cartridge // http://www.pico-8.com\nversion 8\n__lua__\n' +
+                    fh.write(b'pico-8 cartridge // http://www.pico-8.com\nversion %d\n__lua__\n' % ver +
                              bytes(lua.p8scii_to_unicode(src), 'utf-8'))
                 files += [cart, outp]
                 with quiet(sink):
@@ -138,12 +140,18 @@ def run_impl(case):
             sect = txt[a:] if b < 0 else txt[a:b + 1]
             out = bytes(lua.unicode_to_p8scii(sect.decode('utf-8')))
             chunks = None
-            obs['cin'] = _stats(src)[0]
+            # input and output are counted under the version of the written cart (luamin keeps the input's, build
+            # gives the cart the library's current version)
+            try:
+                ver = int(txt.split(b'\n')[1].split()[1])
+            except Exception:  # noqa
+                pass
+            obs['cin'] = _stats(src, ver)[0]
             obs['out'] = out
         if chunks is not None:
             obs['chunks'] = chunks
             obs['out'] = b''.join(chunks)
-        obs['cout'], obs['title'], obs['byline'] = _stats(obs['out'])
+        obs['cout'], obs['title'], obs['byline'] = _stats(obs['out'], ver)
         return obs
     except Exception as e:  # noqa
         return {'raised': lib.exc_name(e), 'msg': str(e)[:160]}
